@@ -40,6 +40,11 @@ from engine.pyvc.core import (Dyn, Ref, R, B, I, Ext, Unknown, Unsupported,
                               NeedFork, PyRaise, const_of, Outcome)
 from contracts.py.extern_cvxopt import LIB as L
 
+# texts of obligations that were refuted because the code is not of the
+# documented FORM (the goal was the constant false: no counter-model), as
+# opposed to a condition that z3 refuted with values
+FORM_REFUTED = set()
+
 Z = z3.IntVal
 RS, IS, BS = z3.RealSort(), z3.IntSort(), z3.BoolSort()
 # the value of  sum(_minmax(name, *flist))  and of the components of
@@ -1175,6 +1180,8 @@ def minmax_init_obligations(timeout_ms=10000):
         r = ex.check(pc, [z3.Not(goal)], timeout=timeout_ms)
         st_ = 'proved' if r == z3.unsat else ('refuted' if r == z3.sat
                                               else 'undecided')
+        if st_ == 'refuted' and z3.is_false(z3.simplify(goal)):
+            FORM_REFUTED.add(text)
         key = (kind, text)
         if key not in seen or rank[st_] > rank[seen[key][0]]:
             seen[key] = (st_, line)
@@ -1402,6 +1409,8 @@ def maxmin_obligations(timeout_ms=10000):
         r = ex.check(pc, [z3.Not(goal)], timeout=timeout_ms)
         st_ = 'proved' if r == z3.unsat else ('refuted' if r == z3.sat
                                               else 'undecided')
+        if st_ == 'refuted' and z3.is_false(z3.simplify(goal)):
+            FORM_REFUTED.add(text)
         key = (kind, text)
         if key not in seen or rank[st_] > rank[seen[key][0]]:
             seen[key] = (st_, line)
@@ -1739,6 +1748,8 @@ def value_obligations(timeout_ms=10000):
         r = ex.check(pc, [z3.Not(goal)], timeout=timeout_ms)
         st_ = 'proved' if r == z3.unsat else ('refuted' if r == z3.sat
                                               else 'undecided')
+        if st_ == 'refuted' and z3.is_false(z3.simplify(goal)):
+            FORM_REFUTED.add(text)
         if kind == 'covered' and st_ != 'proved':
             st_ = 'undecided'
         key = (kind, text)
@@ -1901,6 +1912,8 @@ def mmul_obligations(timeout_ms=10000):
         r = ex_.check(pc, [z3.Not(goal)], timeout=timeout_ms)
         st_ = 'proved' if r == z3.unsat else ('refuted' if r == z3.sat
                                               else 'undecided')
+        if st_ == 'refuted' and z3.is_false(z3.simplify(goal)):
+            FORM_REFUTED.add(text)
         key = (fn, kind, text)
         if key not in seen or rank[st_] > rank[seen[key][0]]:
             seen[key] = (st_, line)
